@@ -85,3 +85,39 @@ func H_C14_retention() {
 	}
 	vReach("end")
 }
+
+//verif:witness H_C14_sequence end
+//verif:bound C14 all histories: an optional earlier scan (on a missing directory, on an empty directory, or on a directory holding one expired own file), then the directory is (re)populated with one expired and one young own file and scanned again, then a further expired file and a third scan; max age 1, 24 or 720 h; every scan deletes exactly the expired own files present at that time
+func H_C14_sequence() {
+	vOpt("loop", 200)
+	vClockMode(2)
+	root := vFSRoot()
+	defer vFSCleanup()
+	dir := root + "/logs"
+	maxAge := [3]int64{1, 24, 720}[vChoose("maxAge", 3)]
+	old := maxAge*3600 + 100
+	app := &RollingFileAppender{FileDir: dir, FileName: "a", MaxAge: int32(maxAge)}
+	switch vChoose("earlier", 4) {
+	case 1:
+		app.clearExpiredFiles() // the directory does not exist (yet)
+	case 2:
+		vFSMkdir(dir)
+		app.clearExpiredFiles()
+	case 3:
+		vFSMkdir(dir)
+		vFSAddFile(dir, "a.20240101000000", []byte("x"), old, false)
+		app.clearExpiredFiles()
+		vAssert(!vFSExists(dir, "a.20240101000000"), "own-expired-file-is-deleted")
+	}
+	vFSMkdir(dir)
+	vFSAddFile(dir, "a.20250101000000", []byte("x"), old, false)
+	vFSAddFile(dir, "a.20250601120000", []byte("x"), 10, false)
+	app.clearExpiredFiles()
+	vAssert(!vFSExists(dir, "a.20250101000000"), "own-expired-file-is-deleted-by-a-later-scan")
+	vAssert(vFSExists(dir, "a.20250601120000"), "young-file-is-kept")
+	vFSAddFile(dir, "a.20250102000000", []byte("x"), old, false)
+	app.clearExpiredFiles()
+	vAssert(!vFSExists(dir, "a.20250102000000"), "own-expired-file-is-deleted-by-a-later-scan")
+	vAssert(vFSExists(dir, "a.20250601120000"), "young-file-is-kept")
+	vReach("end")
+}
